@@ -83,7 +83,8 @@ Proof.
     { destruct (compile_fn_body_spec _ _ _ _ _ _ Eb) as (c & ce & Hc & _). apply (compile_stmt_ext _ _ _ _ _ _ _ _ _ Hc). }
     split; [cbn [length]; congruence|]. split; [eapply pool_le_trans; eassumption|].
     intros i d0 Hn. destruct i as [|i]; cbn [nth_error] in Hn.
-    + inversion Hn; subst d0. eexists _, bs, p, p1. cbn [nth_error fe_locals fe_arity fe_len fe_off].
+    + inversion Hn; subst d0.
+      exists {| fe_name := nm; fe_arity := length (fparams d); fe_off := off; fe_len := length bs; fe_locals := nloc |}, bs, p, p1. cbn [nth_error fe_locals fe_arity fe_len fe_off].
       split; [reflexivity|]. split; [exact Eb|]. split; [exact Hp|]. split; [reflexivity|]. split; [reflexivity|].
       split; [lia|]. rewrite Nat.sub_diag. cbn [skipn]. unfold byte in *. rewrite firstn_app, firstn_all, Nat.sub_diag. cbn [firstn].
       apply app_nil_r.
@@ -128,24 +129,15 @@ Proof.
     rewrite <- Hregion at 1. rewrite firstn_length, skipn_length. lia. }
   destruct Henc as [[He (bs0 & He0 & Hr)] | [He Hr]].
   - exists fe, (c ++ epi), c, ce, pi, pi'.
-    repeat split; try assumption.
-    + apply Forall_app. split; [exact Hwf|exact epi_wf].
-    + exists bs. repeat split; congruence.
-    + rewrite <- (encode_all_length _ _ He). exact Hbl.
-    + congruence.
-    + rewrite <- Hstr in Hp. eapply pool_le_trans; eassumption.
-    + left. reflexivity.
-    + apply Hfd.
-    + apply Hfd.
+    split; [exact Hfe'|]. split.
+    { split; [apply Forall_app; split; [exact Hwf|exact epi_wf]|]. exists bs. split; [exact He|]. split; [congruence|exact Hregion]. }
+    split; [rewrite <- (encode_all_length _ _ He); exact Hbl|]. split; [exact Har|]. split; [exact Hnl|]. split; [exact Hc|].
+    split; [rewrite Hstr; exact Hpi|]. split; [left; reflexivity|exact Hfd].
   - destruct Hed as [Har' | Hne].
     + exists fe, c, c, ce, pi, pi'.
-      repeat split; try assumption.
-      * exists bs. repeat split; congruence.
-      * rewrite <- (encode_all_length _ _ He). exact Hbl.
-      * congruence.
-      * rewrite <- Hstr in Hp. eapply pool_le_trans; eassumption.
-      * right. auto.
-      * apply Hfd.
-      * apply Hfd.
+      split; [exact Hfe'|]. split.
+      { split; [exact Hwf|]. exists bs. split; [exact He|]. split; [congruence|exact Hregion]. }
+      split; [rewrite <- (encode_all_length _ _ He); exact Hbl|]. split; [exact Har|]. split; [exact Hnl|]. split; [exact Hc|].
+      split; [rewrite Hstr; exact Hpi|]. split; [right; auto|exact Hfd].
     + rewrite (Hne _ _ _ _ _ Hc He) in Hr. discriminate.
 Qed.
